@@ -127,6 +127,23 @@ theorem timedOf_plain_sum (f : TOp → Nat) (hm : ∀ a k, f (.mem a k) = k) (hp
     simp only [Spec.tsum] at ih' ⊢
     cases c <;> simp [timedOf, Spec.Cyc.t, ih', hm, hp, hi]
 
+/-- the second latch matters only behind a port cycle -/
+theorem timedOf_no_io (l0 l1 l2 : BitVec 8) (cs : List Cyc) (h : ∀ p, Cyc.io p ∉ cs) :
+    timedOf l0 l1 cs = timedOf l0 l2 cs := by
+  induction cs with
+  | nil => rfl
+  | cons c r ih =>
+    have hr : ∀ p, Cyc.io p ∉ r := fun p hp => h p (List.mem_cons_of_mem _ hp)
+    cases c with
+    | io p => exact absurd List.mem_cons_self (h p)
+    | _ => simp only [timedOf, ih hr]
+
+theorem tsum_append (xs ys : List Cyc) : Spec.tsum (xs ++ ys) = Spec.tsum xs + Spec.tsum ys := by
+  simp [Spec.tsum]
+
+theorem tsum_fetch4 (a : BitVec 16) : Spec.tsum (Spec.fetch4 a) = 4 := by
+  simp [Spec.tsum, Spec.fetch4, Spec.Cyc.t]
+
 /-! ### the memory view -/
 
 theorem cpuMem_waitMreq (a : BitVec 16) (k : Nat) (z : ZX) : (Bus.waitMreq a k z : ZX).cpuMem = z.cpuMem := by
@@ -137,32 +154,43 @@ theorem cpuMem_waitMreq (a : BitVec 16) (k : Nat) (z : ZX) : (Bus.waitMreq a k z
 `pc_callback`, `halt`, `reti` do nothing to the machine state modelled here, and `read_internal`
 returns the bus unchanged, so the bus after a 4-T opcode fetch at `a` is `Bus.waitMreq a 4 z`. -/
 
-theorem emulate_quiescent (v : Variant) (s : Cpu) (z : ZX) (hq : Quiescent s z) :
-    emulate v (s, z) = execOne v s z := by
-  simp [emulate, checkInterrupt_quiescent s z hq, pcCallback_eq]
+/-- an `emulate` whose interrupt check accepts nothing (no request, IFF1 clear, or held off by EI/DI/a
+parked prefix) is the instruction part run with `skip_interrupt` cleared -/
+theorem emulate_no_accept (v : Variant) (s : Cpu) (z : ZX) (hd : decision s z = .none) :
+    emulate v (s, z) = execOne v { s with skipInt := false } z := by
+  simp [emulate, checkInterrupt_eq_decision, hd, pcCallback_eq]
 
-/-- the byte of an index prefix -/
-def pfxByte : Pfx → BitVec 8
-  | .dd => 0xDD | .fd => 0xFD | .none => 0x00
+theorem decision_of_quiescent (s : Cpu) (z : ZX) (hq : Quiescent s z) : decision s z = .none := by
+  obtain ⟨h1, h2, h3⟩ := hq
+  simp [decision, h1, h2, h3]
 
-theorem execOne_unprefixed (v : Variant) (s : Cpu) (z : ZX) (hap : s.activePrefix = .none)
-    (hnp : (decode (z.cpuMem s.pc)).isPrefix = false) :
-    execOne v s z =
-      exec v .none (decode (z.cpuMem s.pc)) (stepQ { s with r := incR s.r, pc := s.pc + 1 })
-        (Bus.waitMreq s.pc 4 z) := by
+theorem decision_of_skip (s : Cpu) (z : ZX) (h : s.skipInt = true) : decision s z = .none := by
+  simp [decision, h]
+
+macro "emu_simp" : tactic => `(tactic|
+  simp [execOne, fetchByte, ZxVerif.Z80.read, readInternal_val, readInternal_bus, waitMreq_mem, afterIndexPrefix,
+    afterEDPrefix, stepQ, body1, body2, *])
+
+theorem emulate_unprefixed (v : Variant) (s : Cpu) (z : ZX) (hd : decision s z = .none)
+    (hap : s.activePrefix = .none) (hnp : (decode (z.cpuMem s.pc)).isPrefix = false) :
+    emulate v (s, z) = exec v .none (decode (z.cpuMem s.pc)) (body1 s) (Bus.waitMreq s.pc 4 z) := by
+  rw [emulate_no_accept v s z hd]
   simp only [ZX.cpuMem, Ctl.readInternal] at hnp ⊢
   generalize hi : decode (z.ctl.mem.read s.pc) = i at hnp
-  cases i <;> simp [Instr.isPrefix] at hnp <;>
-    simp [execOne, hap, fetchByte, ZxVerif.Z80.read, readInternal_val, readInternal_bus, waitMreq_mem, hi]
+  cases i <;> simp [Instr.isPrefix] at hnp <;> emu_simp
 
-theorem execOne_indexed (v : Variant) (p : Pfx) (hp : p ≠ .none) (s : Cpu) (z : ZX)
+theorem decode_DD : decode 221#8 = .pfxDD := by decide
+theorem decode_FD : decode 253#8 = .pfxFD := by decide
+theorem decode_ED : decode 237#8 = .pfxED := by decide
+theorem decode_CB : decode 203#8 = .pfxCB := by decide
+
+theorem emulate_indexed (v : Variant) (p : Pfx) (hp : p ≠ .none) (s : Cpu) (z : ZX) (hd : decision s z = .none)
     (hap : s.activePrefix = .none) (h1 : z.cpuMem s.pc = pfxByte p)
     (hnp : (decode (z.cpuMem (s.pc + 1))).isPrefix = false) :
-    execOne v s z =
-      exec v p (decode (z.cpuMem (s.pc + 1))) (stepQ { s with r := incR (incR s.r), pc := s.pc + 1 + 1 })
-        (Bus.waitMreq (s.pc + 1) 4 (Bus.waitMreq s.pc 4 z)) := by
-  have hdd : decode 221#8 = .pfxDD := by decide
-  have hfd : decode 253#8 = .pfxFD := by decide
+    emulate v (s, z) =
+      exec v p (decode (z.cpuMem (s.pc + 1))) (body2 s) (Bus.waitMreq (s.pc + 1) 4 (Bus.waitMreq s.pc 4 z)) := by
+  have hdd := decode_DD; have hfd := decode_FD
+  rw [emulate_no_accept v s z hd]
   simp only [ZX.cpuMem, Ctl.readInternal] at hnp h1 ⊢
   generalize hi : decode (z.ctl.mem.read (s.pc + 1)) = i at hnp
   simp only [BitVec.ofNat_eq_ofNat] at hi
@@ -170,48 +198,69 @@ theorem execOne_indexed (v : Variant) (p : Pfx) (hp : p ≠ .none) (s : Cpu) (z 
   | none => exact absurd rfl hp
   | dd =>
     simp only [pfxByte, BitVec.ofNat_eq_ofNat] at h1
-    cases i <;> simp [Instr.isPrefix] at hnp <;>
-      simp [execOne, hap, fetchByte, ZxVerif.Z80.read, readInternal_val, readInternal_bus, waitMreq_mem, h1, hdd,
-        afterIndexPrefix, hi, stepQ]
+    cases i <;> simp [Instr.isPrefix] at hnp <;> emu_simp
   | fd =>
     simp only [pfxByte, BitVec.ofNat_eq_ofNat] at h1
-    cases i <;> simp [Instr.isPrefix] at hnp <;>
-      simp [execOne, hap, fetchByte, ZxVerif.Z80.read, readInternal_val, readInternal_bus, waitMreq_mem, h1, hfd,
-        afterIndexPrefix, hi, stepQ]
+    cases i <;> simp [Instr.isPrefix] at hnp <;> emu_simp
 
-theorem execOne_ed (v : Variant) (s : Cpu) (z : ZX) (hap : s.activePrefix = .none) (h1 : z.cpuMem s.pc = 0xED) :
-    execOne v s z =
-      execED (decodeED (z.cpuMem (s.pc + 1))) (stepQ { s with r := incR (incR s.r), pc := s.pc + 1 + 1 })
-        (Bus.waitMreq (s.pc + 1) 4 (Bus.waitMreq s.pc 4 z)) := by
-  have hd : decode 237#8 = .pfxED := by decide
+theorem emulate_ed (v : Variant) (s : Cpu) (z : ZX) (hd : decision s z = .none)
+    (hap : s.activePrefix = .none) (h1 : z.cpuMem s.pc = 0xED) :
+    emulate v (s, z) =
+      execED (decodeED (z.cpuMem (s.pc + 1))) (body2 s) (Bus.waitMreq (s.pc + 1) 4 (Bus.waitMreq s.pc 4 z)) := by
+  have hed := decode_ED
+  rw [emulate_no_accept v s z hd]
   simp only [ZX.cpuMem, Ctl.readInternal, BitVec.ofNat_eq_ofNat] at h1 ⊢
-  simp [execOne, hap, fetchByte, ZxVerif.Z80.read, readInternal_val, readInternal_bus, waitMreq_mem, h1, hd,
-    afterEDPrefix, stepQ]
+  emu_simp
 
-theorem execOne_cb (v : Variant) (s : Cpu) (z : ZX) (hap : s.activePrefix = .none) (h1 : z.cpuMem s.pc = 0xCB) :
-    execOne v s z = execCB (stepQ { s with r := incR s.r, pc := s.pc + 1 }) (Bus.waitMreq s.pc 4 z) := by
-  have hd : decode 203#8 = .pfxCB := by decide
+theorem emulate_cb (v : Variant) (s : Cpu) (z : ZX) (hd : decision s z = .none)
+    (hap : s.activePrefix = .none) (h1 : z.cpuMem s.pc = 0xCB) :
+    emulate v (s, z) = execCB (body1 s) (Bus.waitMreq s.pc 4 z) := by
+  have hcb := decode_CB
+  rw [emulate_no_accept v s z hd]
   simp only [ZX.cpuMem, Ctl.readInternal, BitVec.ofNat_eq_ofNat] at h1 ⊢
-  simp [execOne, hap, fetchByte, ZxVerif.Z80.read, readInternal_val, readInternal_bus, waitMreq_mem, h1, hd, stepQ]
+  emu_simp
 
-theorem execOne_ddcb (v : Variant) (p : Pfx) (hp : p ≠ .none) (s : Cpu) (z : ZX)
+theorem emulate_ddcb (v : Variant) (p : Pfx) (hp : p ≠ .none) (s : Cpu) (z : ZX) (hd : decision s z = .none)
     (hap : s.activePrefix = .none) (h1 : z.cpuMem s.pc = pfxByte p) (h2 : z.cpuMem (s.pc + 1) = 0xCB) :
-    execOne v s z =
-      execIdxCB p (stepQ { s with r := incR (incR s.r), pc := s.pc + 1 + 1 })
-        (Bus.waitMreq (s.pc + 1) 4 (Bus.waitMreq s.pc 4 z)) := by
-  have hdd : decode 221#8 = .pfxDD := by decide
-  have hfd : decode 253#8 = .pfxFD := by decide
-  have hcb : decode 203#8 = .pfxCB := by decide
+    emulate v (s, z) = execIdxCB p (body2 s) (Bus.waitMreq (s.pc + 1) 4 (Bus.waitMreq s.pc 4 z)) := by
+  have hdd := decode_DD; have hfd := decode_FD; have hcb := decode_CB
+  rw [emulate_no_accept v s z hd]
   simp only [ZX.cpuMem, Ctl.readInternal, BitVec.ofNat_eq_ofNat] at h1 h2 ⊢
   cases p with
   | none => exact absurd rfl hp
-  | dd =>
-    simp only [pfxByte, BitVec.ofNat_eq_ofNat] at h1
-    simp [execOne, hap, fetchByte, ZxVerif.Z80.read, readInternal_val, readInternal_bus, waitMreq_mem, h1, h2, hdd, hcb,
-      afterIndexPrefix, stepQ]
-  | fd =>
-    simp only [pfxByte, BitVec.ofNat_eq_ofNat] at h1
-    simp [execOne, hap, fetchByte, ZxVerif.Z80.read, readInternal_val, readInternal_bus, waitMreq_mem, h1, h2, hfd, hcb,
-      afterIndexPrefix, stepQ]
+  | dd => simp only [pfxByte, BitVec.ofNat_eq_ofNat] at h1; emu_simp
+  | fd => simp only [pfxByte, BitVec.ofNat_eq_ofNat] at h1; emu_simp
+
+/-! a prefix parked by the previous `emulate` (DD/FD followed by another prefix byte) -/
+
+theorem emulate_parked_indexed (v : Variant) (p : Pfx) (hp : p ≠ .none) (s : Cpu) (z : ZX)
+    (hd : decision s z = .none) (hap : s.activePrefix = parked p)
+    (hnp : (decode (z.cpuMem s.pc)).isPrefix = false) :
+    emulate v (s, z) = exec v p (decode (z.cpuMem s.pc)) (body1 s) (Bus.waitMreq s.pc 4 z) := by
+  rw [emulate_no_accept v s z hd]
+  simp only [ZX.cpuMem, Ctl.readInternal] at hnp ⊢
+  generalize hi : decode (z.ctl.mem.read s.pc) = i at hnp
+  cases p with
+  | none => exact absurd rfl hp
+  | dd => simp only [parked] at hap; cases i <;> simp [Instr.isPrefix] at hnp <;> emu_simp
+  | fd => simp only [parked] at hap; cases i <;> simp [Instr.isPrefix] at hnp <;> emu_simp
+
+theorem emulate_parked_ddcb (v : Variant) (p : Pfx) (hp : p ≠ .none) (s : Cpu) (z : ZX)
+    (hd : decision s z = .none) (hap : s.activePrefix = parked p) (h1 : z.cpuMem s.pc = 0xCB) :
+    emulate v (s, z) = execIdxCB p (body1 s) (Bus.waitMreq s.pc 4 z) := by
+  have hcb := decode_CB
+  rw [emulate_no_accept v s z hd]
+  simp only [ZX.cpuMem, Ctl.readInternal, BitVec.ofNat_eq_ofNat] at h1 ⊢
+  cases p with
+  | none => exact absurd rfl hp
+  | dd => simp only [parked] at hap; emu_simp
+  | fd => simp only [parked] at hap; emu_simp
+
+theorem emulate_parked_ed (v : Variant) (s : Cpu) (z : ZX) (hd : decision s z = .none)
+    (hap : s.activePrefix = .ed) :
+    emulate v (s, z) = execED (decodeED (z.cpuMem s.pc)) (body1 s) (Bus.waitMreq s.pc 4 z) := by
+  rw [emulate_no_accept v s z hd]
+  simp only [ZX.cpuMem, Ctl.readInternal]
+  emu_simp
 
 end ZxVerif.Spectrum
